@@ -1,3 +1,169 @@
 import Nv.OracleIO
-/-! oracle_c17 — stub (model not built yet): answers `bad-op` to every line. -/
-def main : IO Unit := Nv.oracleMain (fun (_ : Unit) _ => ((), "bad-op")) ()
+import Nv.Model.C17
+import Nv.Gen.C17
+/-!
+oracle_c17 — line protocol. A key token is `<ty>:<value>:<hash>` with `ty` one of
+u8 i8 i16 u16 i32 u32 i64 u64 int uint hit (decimal value) | str bytes bs (hex bytes) | other (value 0),
+and `hash` = the key's xxhash as computed by the real package (xxhash itself is not modelled).
+  `reset`                                 → `ok`
+  `remap <n>`                             → `ok` | `panic` (n = 0: division by zero)
+  `search <x>`                            → `<index>`            SearchIndex
+  `simple <key>` / `xhash <key>`          → `<index>` | `panic`  SimpleIndex / XHashIndex
+  `cont <map|lru|tlru> <n> <simple|xhash>`→ `ok`                 sharded container (LRUs with a huge capacity)
+  `set <key> <v>` `get <key>` `peek <key>` `exist <key>` `del <key>`
+  `lock <klock|tklock-i64|tklock-str|semap> <n> <simple|xhash>` → `ok`
+  `lk <key>` / `rlk <key>`                → `ok`                 acquire+release twice through the group
+Routing uses the regenerated kernels (`Nv.Gen.C17`): boundaries, clamp, SimpleIndex arms and tail.
+-/
+open Nv Nv.C17
+
+/-- boundaries through the regenerated kernels -/
+def genNps (n i : Nat) : Nat :=
+  if Nv.Gen.C17.cfg.lastForcedMax && decide (i + 1 = n) then M64
+  else (Nv.Gen.C17.npsAt (Nv.Gen.C17.npsY (BitVec.ofNat 64 n)) (BitVec.ofNat 64 i) (BitVec.ofNat 64 n)).toNat
+
+def genSearchIndex (n x : Nat) : Nat :=
+  let i := bsearch (fun i => holds Nv.Gen.C17.cfg.searchPred (genNps n i) x) n 0 n
+  (Nv.Gen.C17.searchClamp (BitVec.ofNat 64 i) (BitVec.ofNat 64 n)).toNat
+
+def genXHash (n : Nat) (k : Key) : Out :=
+  if k.hashable then .idx (genSearchIndex n k.hash) else .panic
+
+def genSimple (n : Nat) (k : Key) : Out :=
+  match Nv.Gen.C17.simpleArm k.ty k.bits with
+  | some it => .idx (Nv.Gen.C17.simpleTail it (BitVec.ofNat 64 n)).toNat
+  | none => genXHash n k
+
+def parseTy (s : String) : Option (KType × Nat × Bool) :=   -- type, width, signed
+  match s with
+  | "u8" => some (.u8, 8, false) | "i8" => some (.i8, 8, true) | "i16" => some (.i16, 16, true)
+  | "u16" => some (.u16, 16, false) | "i32" => some (.i32, 32, true) | "u32" => some (.u32, 32, false)
+  | "i64" => some (.i64, 64, true) | "u64" => some (.u64, 64, false) | "int" => some (.int, 64, true)
+  | "uint" => some (.uint, 64, false) | "hit" => some (.hit, 64, false)
+  | _ => none
+
+def isHexLower (s : String) : Bool :=
+  s.length % 2 == 0 && s.toList.all (fun c => c.isDigit || ('a' ≤ c && c ≤ 'f'))
+
+def isDecimal (s : String) : Bool := !s.isEmpty && s.toList.all Char.isDigit && s.length ≤ 20
+
+def parseKey (tok : String) : Option Key :=
+  match tok.splitOn ":" with
+  | [ty, v, h] =>
+    if !isDecimal h then none else
+    match h.toNat? with
+    | none => none
+    | some hash =>
+      if hash ≥ 2 ^ 64 then none else
+      match parseTy ty with
+      | some (kt, w, signed) =>
+        let body := if signed && v.startsWith "-" then (v.drop 1).toString else v
+        if !isDecimal body || v == "-0" then none else
+        match v.toInt? with
+        | none => none
+        | some i =>
+          let lo : Int := if signed then -(2 ^ (w - 1) : Int) else 0
+          let hi : Int := if signed then (2 ^ (w - 1) : Int) else (2 ^ w : Int)
+          if lo ≤ i ∧ i < hi then some ⟨kt, (i % (2 ^ w : Int)).toNat, "", hash⟩ else none
+      | none =>
+        if ty == "str" || ty == "bytes" || ty == "bs" then
+          if isHexLower v then
+            some ⟨if ty == "str" then .str else if ty == "bytes" then .bytes else .bs, 0, v, hash⟩
+          else none
+        else if ty == "other" && v == "0" then some ⟨.other, 0, "", hash⟩
+        else none
+  | _ => none
+
+inductive St
+  | none
+  | remap (n : Nat)
+  | cont (kind : String) (n : Nat) (xhash : Bool) (shards : List MapSt)
+  | lock (kind : String) (n : Nat) (xhash : Bool)
+
+def showOut : Out → String
+  | .idx i => toString i
+  | .panic => "panic"
+
+def parseN (s : String) : Option Nat :=
+  if isDecimal s && s.length ≤ 9 then s.toNat?.bind (fun n => if n ≤ 2 ^ 20 then some n else none) else none
+
+def route (n : Nat) (xhash : Bool) (k : Key) : Out := if xhash then genXHash n k else genSimple n k
+
+def showResp (lru : Bool) (req : MReq) (present : Bool) : MResp → String
+  | .unit => if lru && req == .delete then (if present then "true" else "false") else "ok"
+  | .val (some v) => s!"v={v}"
+  | .val none => "miss"
+  | .bool b => if b then "true" else "false"
+
+def step (st : St) (line : String) : St × String :=
+  match words line with
+  | ["reset"] => (.none, "ok")
+  | ["remap", n] =>
+    match parseN n with
+    | some 0 => (.none, "panic")
+    | some n => (.remap n, "ok")
+    | none => (st, "bad-op")
+  | ["search", x] =>
+    match st with
+    | .remap n =>
+      if !isDecimal x then (st, "bad-op") else
+      match x.toNat? with
+      | some x => if x < 2 ^ 64 then (st, toString (genSearchIndex n x)) else (st, "bad-op")
+      | none => (st, "bad-op")
+    | _ => (st, "bad-op")
+  | ["simple", k] =>
+    match st, parseKey k with
+    | .remap n, some k => (st, showOut (genSimple n k))
+    | _, _ => (st, "bad-op")
+  | ["xhash", k] =>
+    match st, parseKey k with
+    | .remap n, some k => (st, showOut (genXHash n k))
+    | _, _ => (st, "bad-op")
+  | ["cont", kind, n, r] =>
+    match parseN n with
+    | some n =>
+      if n = 0 ∨ n > 4096 ∨ ¬ (r == "simple" || r == "xhash") ∨ ¬ (kind == "map" || kind == "lru" || kind == "tlru") then (st, "bad-op")
+      else (.cont kind n (r == "xhash") (List.replicate n []), "ok")
+    | none => (st, "bad-op")
+  | ["lock", kind, n, r] =>
+    match parseN n with
+    | some n =>
+      if n = 0 ∨ n > 4096 ∨ ¬ (r == "simple" || r == "xhash") ∨
+          ¬ (kind == "klock" || kind == "tklock-i64" || kind == "tklock-str" || kind == "semap") then (st, "bad-op")
+      else (.lock kind n (r == "xhash"), "ok")
+    | none => (st, "bad-op")
+  | op :: k :: rest =>
+    match st, parseKey k with
+    | .cont kind n xh shards, some key =>
+      if key.ty == .bytes || key.ty == .other then (st, "bad-op") else
+      let req : Option MReq := match op, rest with
+        | "set", [v] => if isDecimal v && v.length ≤ 9 then v.toNat?.map MReq.set else none
+        | "get", [] => some .get
+        | "peek", [] => if kind == "map" then none else some .get
+        | "exist", [] => some .exist
+        | "del", [] => some .delete
+        | _, _ => none
+      match req with
+      | none => (st, "bad-op")
+      | some req =>
+        match route n xh key with
+        | .panic => (st, "panic")
+        | .idx i =>
+          match shards[i]? with
+          | none => (st, "panic")      -- index outside the shard slice
+          | some sh =>
+            let present := (mlookup key sh).isSome
+            let r := mapStep sh key req
+            (.cont kind n xh (shards.set i r.1), showResp (kind != "map") req present r.2)
+    | .lock kind n xh, some key =>
+      if key.ty == .bytes || key.ty == .other then (st, "bad-op")
+      else if (kind == "tklock-i64" && key.ty != .i64) || (kind == "tklock-str" && key.ty != .str) then (st, "bad-op")
+      else if !(op == "lk" || op == "rlk") || !rest.isEmpty then (st, "bad-op")
+      else
+        match route n xh key with
+        | .panic => (st, "panic")
+        | .idx i => if i < n then (st, "ok") else (st, "panic")
+    | _, _ => (st, "bad-op")
+  | _ => (st, "bad-op")
+
+def main : IO Unit := oracleMain step St.none
